@@ -9,7 +9,9 @@ def decodeName (s : String) : Option String :=
   | 's' :: r => (hexToBytes (String.ofList r)).map (fun bs => String.ofList (bs.map Char.ofNat))
   | _ => none
 
-def kinds : List String := ["attr", "view", "subs", "nodes", "method", "two", "drop", "restart"]
+def kinds : List String :=
+  ["attr", "view", "subs", "nodes", "method", "two", "drop", "history", "items", "discovery", "transfer", "races",
+   "close-race", "reconnect", "restart"]
 
 def dstep (s : Unit) (toks : List String) : Unit × String :=
   match toks with
